@@ -53,6 +53,16 @@ inline bool segHitsInteriorEps(DP a, DP b, const IPoly &pl, double eps) {
     }
     return lo < hi;
 }
+// does segment pq PROPERLY cross (interior point of both) some edge of the polygon?  A segment can pass through a convex polygon's
+// interior without doing so only by entering and leaving through vertices / having its own end points on the boundary.
+inline bool properlyCrossesAnEdge(DP p, DP q, const IPoly &pl) {
+    for (size_t e = 0; e < pl.size(); e++) {
+        DP u = dp(pl[e]), v = dp(pl[(e + 1) % pl.size()]);
+        long double a1 = crossd(p, q, u), a2 = crossd(p, q, v), b1 = crossd(u, v, p), b2 = crossd(u, v, q);
+        if (((a1 > 0 && a2 < 0) || (a1 < 0 && a2 > 0)) && ((b1 > 0 && b2 < 0) || (b1 < 0 && b2 > 0))) return true;
+    }
+    return false;
+}
 inline bool ptInClosed(IP q, const IPoly &pl) { for (size_t i = 0; i < pl.size(); i++) if (cross(pl[i], pl[(i + 1) % pl.size()], q) < 0) return false; return true; }
 inline bool ptStrictInside(IP q, const IPoly &pl) { for (size_t i = 0; i < pl.size(); i++) if (cross(pl[i], pl[(i + 1) % pl.size()], q) <= 0) return false; return true; }
 inline bool ptInClosedD(DP q, const IPoly &pl, double eps) {   // inside or within eps of the polygon
